@@ -54,7 +54,7 @@ CHECKS = {
              "rounding to ctx.prec digits decided by decade forks, context rounding modes): for each configuration of a grid of "
              "(format, min, max, step) and EVERY input in the stated range (all integers, or all decimals n/10^9) z3 discharges "
              "type, on-grid, nearest, tie-upward and in-range obligations - exact for integer formats, six significant digits for "
-             "fractional ones. Garbage / non-finite inputs and bool spellings: concrete side check on the real function. Also: maxima that are not grid points, and Service.build_update for a value equal to / different from the stored one.",
+             "fractional ones. Garbage / non-finite inputs and bool spellings: concrete side check on the real function. Also: maxima that are not grid points, and Service.build_update for a value equal to / different from the stored one; two writes to one object of the library's own Characteristic class with min / max / step reassigned in between (second value = that of a fresh object).",
         note="Trusted: the Decimal model (cross-checked against the real decimal module on every sampled path by the differential), "
              "float(Decimal) as identity, z3. Binary floats with expansions longer than 9 fractional digits are outside.",
         design="DESIGN.md section 5 C14"),
